@@ -697,3 +697,77 @@ Lemma int_example_ok :
   val_text (fmt_int (-32768)) = VOk (FFin true 1 15) /\
   val_text (fmt_int 2147483648) = VSyntaxError 7.
 Proof. vm_compute. repeat split; reflexivity. Qed.
+
+(* ====================================================================== *)
+(* the model after fixes/C16-D22neg.diff                                  *)
+
+(* format_number with  before_decimal = sn.lstrip('-').index('.')  : the
+   digit count is taken on the text of |x| *)
+Definition single_rounded_fixed (x : fl) : fl :=
+  match index_of ch_dot (py_repr (fabs x)) 0 with
+  | Some bd => if mem_ch ch_e (py_repr x) then x else py_round_nd x (7 - bd)
+  | None => x
+  end.
+
+Definition fmt_float_D22fix (single : bool) (x0 : fl) : str :=
+  let x := if single then c_float x0 else x0 in
+  let x1 := if single then single_rounded_fixed x else x in
+  let s := strip_dot0 (py_repr x1) in
+  let s := map (fun c => if c =? ch_e then (if single then ch_E else ch_D) else c) s in
+  if fl_ge0 x1 then ch_space :: s else s.
+
+Lemma index_of_is_some c s : forall i j,
+  match index_of c s i with Some _ => true | None => false end =
+  match index_of c s j with Some _ => true | None => false end.
+Proof.
+  induction s as [|d r IH]; intros i j; simpl; [reflexivity|].
+  destruct (d =? c); [reflexivity | apply IH].
+Qed.
+
+Lemma mem_ch_cons c d s : (d =? c) = false -> mem_ch c (d :: s) = mem_ch c s.
+Proof.
+  intro H. unfold mem_ch. simpl. rewrite H. apply index_of_is_some.
+Qed.
+
+Lemma py_round_nd_fneg n m e nd :
+  py_round_nd (FFin (negb n) m e) nd = fneg (py_round_nd (FFin n m e) nd).
+Proof.
+  unfold py_round_nd. destruct (m <=? 0); [reflexivity|].
+  destruct (exact_dec m e) as [N q]. cbv zeta.
+  destruct (q + nd >=? 0); [reflexivity|]. apply dec_to_fl_negb.
+Qed.
+
+(* with the fix, SINGLE values and their negations show the same digits
+   (whenever the 7-digit rounding does not collapse the value to zero) *)
+Lemma negation_same_digits_single_fixed m e :
+  0 < m -> round32 false m e false = FFin false m e ->
+  (exists m1 e1, single_rounded_fixed (FFin false m e) = FFin false m1 e1 /\ 0 < m1) ->
+  exists digits,
+    fmt_float_D22fix true (FFin false m e) = ch_space :: digits /\
+    fmt_float_D22fix true (FFin true m e) = ch_minus :: digits.
+Proof.
+  intros Hm Hs (m1 & e1 & Hr & Hm1).
+  assert (Hsn : round32 true m e false = FFin true m e).
+  { unfold round32 in *. change true with (negb false). rewrite round_gen_negb, Hs. reflexivity. }
+  assert (Hneg : single_rounded_fixed (FFin true m e) = FFin true m1 e1).
+  { unfold single_rounded_fixed in *. cbn [fabs] in *.
+    rewrite (py_repr_neg m e Hm).
+    rewrite mem_ch_cons by reflexivity.
+    destruct (index_of ch_dot (py_repr (FFin false m e)) 0) as [bd|].
+    - destruct (mem_ch ch_e (py_repr (FFin false m e))).
+      + injection Hr as <- <-. reflexivity.
+      + change true with (negb false). rewrite py_round_nd_fneg, Hr. reflexivity.
+    - injection Hr as <- <-. reflexivity. }
+  unfold fmt_float_D22fix. cbv zeta. unfold c_float.
+  replace (m <=? 0) with false by lia. rewrite Hs, Hsn, Hr, Hneg.
+  cbn [fl_ge0 negb]. replace (m1 <=? 0) with false by lia. cbn [orb].
+  rewrite (py_repr_neg m1 e1 Hm1), strip_dot0_minus. cbn [map].
+  replace (ch_minus =? ch_e) with false by reflexivity.
+  eexists. split; reflexivity.
+Qed.
+
+(* the D22 witness under the fixed model *)
+Lemma negation_fixed_example :
+  fmt_float_D22fix true (FFin false 15432099 3) = [32; 49; 50; 51; 52; 53; 54; 56; 48; 48] /\
+  fmt_float_D22fix true (FFin true 15432099 3) = [45; 49; 50; 51; 52; 53; 54; 56; 48; 48].
+Proof. vm_compute. split; reflexivity. Qed.
